@@ -48,12 +48,17 @@ class Watchdog:
 
     def __enter__(self):
         self._old = signal.signal(signal.SIGALRM, self._fire)
-        signal.setitimer(signal.ITIMER_REAL, self.seconds)
+        self._t0 = time.time()
+        self._outer = signal.setitimer(signal.ITIMER_REAL, self.seconds)[0]
         return self
 
     def __exit__(self, *exc):
         signal.setitimer(signal.ITIMER_REAL, 0)
         signal.signal(signal.SIGALRM, self._old)
+        if self._outer:
+            # re-arm the enclosing (per-task) limit with what is left of it
+            left = max(self._outer - (time.time() - self._t0), 1.0)
+            signal.setitimer(signal.ITIMER_REAL, left)
         return False
 
 
@@ -115,15 +120,47 @@ class Result:
 _POOL_FUNC = None
 
 
+TASK_TIMEOUT = float(os.environ.get('VERIF_TASK_TIMEOUT', '0')) or None
+
+
+def _task_alarm(signum, frame):
+    raise ExecutionTimeout('task exceeded its time limit')
+
+
 def _pool_entry(arg):
+    """Runs one task.  A task that does not come back within the (very
+    generous) task time limit - a change to the library made some call loop -
+    is reported as a 'hang' result instead of stalling the whole check."""
     func, task = arg
+    limit = TASK_TIMEOUT or (900.0 if os.environ.get('VERIF_TIER_RUNNING')
+                             == 'quick' else 5400.0)
+    old = signal.signal(signal.SIGALRM, _task_alarm)
+    signal.setitimer(signal.ITIMER_REAL, limit)
     try:
         return ('ok', func(task))
     except ExecutionTimeout as e:
-        return ('err', 'ExecutionTimeout escaped a task: %s\n%s'
-                % (e, traceback.format_exc()))
+        tb = traceback.extract_tb(e.__traceback__)
+        lib = [f for f in tb if '/txdbus/' in f.filename]
+        where = '%s:%s' % (lib[-1].filename.split('/')[-1], lib[-1].name) \
+            if lib else '%s:%s' % (tb[-1].filename.split('/')[-1],
+                                   tb[-1].name)
+        return ('hang', (where, ''.join(traceback.format_list(tb[-6:])),
+                         repr(task)[:300]))
     except BaseException:
         return ('err', traceback.format_exc())
+    finally:
+        signal.setitimer(signal.ITIMER_REAL, 0)
+        signal.signal(signal.SIGALRM, old)
+
+
+def _hang_result(info, limit_note=''):
+    where, stack, task = info
+    r = Result()
+    r.violation('hang/%s' % where,
+                'a task did not finish within its time limit; it was in %s '
+                '(task %s)\n%s' % (where, task, stack),
+                {'kind': 'hang', 'where': where, 'task': task}, size=0)
+    return r
 
 
 def run_tasks(func, tasks, jobs, total=None, seed=0):
@@ -139,6 +176,8 @@ def run_tasks(func, tasks, jobs, total=None, seed=0):
             st, r = _pool_entry((func, t))
             if st == 'err':
                 raise HarnessError('task failed:\n' + r)
+            if st == 'hang':
+                r = _hang_result(r)
             yield r
         return
     ctx = multiprocessing.get_context('fork')
@@ -148,6 +187,8 @@ def run_tasks(func, tasks, jobs, total=None, seed=0):
             if st == 'err':
                 pool.terminate()
                 raise HarnessError('task failed:\n' + r)
+            if st == 'hang':
+                r = _hang_result(r)
             yield r
 
 
